@@ -29,6 +29,8 @@ type c18Gate struct {
 	V       [4]int
 	Storage string
 	Bucket  string
+	// Reopen: the stream is closed and reopened once (GET /rebalance) before the close that is measured
+	Reopen bool `json:",omitempty"`
 }
 
 func c18Grid() [][4]int {
@@ -164,6 +166,11 @@ func init() {
 					}
 					gates = append(gates, g)
 				}
+			}
+			// the serial-close gate once more after the stream has been closed and reopened (one API-enabled client per child)
+			for _, v := range [][4]int{{5, 0, 0, 0}, {5, 4, 9, 9999}, {5, 5, 0, 0}, {7, 6, 3, 4200}} {
+				raw, _ := json.Marshal(c18Params{Gates: []c18Gate{{V: v, Storage: "couchstore", Bucket: "membase", Reopen: true}}})
+				out = append(out, drv.Scenario{Kind: "gate", Seed: seed, Params: raw, TimeoutS: 120, Solo: true})
 			}
 			for i := 0; i < len(gates); i += 9 {
 				j := i + 9
@@ -419,12 +426,16 @@ func c18RunGate(g c18Gate) (drv.Result, string) {
 	var once sync.Once
 	overlapSeen := false
 	firstHeld := false
+	armed := !g.Reopen
 	env.Sim.Hook = func(r *cbsim.Req) *cbsim.Action {
 		if r.Op != cbsim.OpDcpCloseStream {
 			return nil
 		}
 		mu.Lock()
 		defer mu.Unlock()
+		if !armed {
+			return nil
+		}
 		closeReqs++
 		if closeReqs == 1 {
 			firstHeld = true
@@ -445,9 +456,28 @@ func c18RunGate(g c18Gate) (drv.Result, string) {
 		return nil
 	}
 	cfg := env.BaseConfig()
+	if g.Reopen {
+		cfg.API.Disabled = false
+		cfg.API.Port = hx.FreePort()
+		cfg.Dcp.Group.Membership.RebalanceDelay = 20 * time.Millisecond
+	}
 	f, err := env.StartFull(cfg, hx.FullOpts{})
 	if err != nil {
 		return drv.Result{Verdict: drv.Inconclusive, Detail: "start: " + err.Error()}, ""
+	}
+	if g.Reopen {
+		url := fmt.Sprintf("http://127.0.0.1:%d/rebalance", cfg.API.Port)
+		ok := hx.WaitFor(5*time.Second, func() bool {
+			code, _, err := hx.HTTPDo("GET", url, "", 2*time.Second)
+			return err == nil && code == 200
+		})
+		if !ok || !hx.WaitFor(10*time.Second, func() bool { return env.Log.Count("eh.ARE") >= 1 }) {
+			f.Close(30 * time.Second)
+			return drv.Result{Verdict: drv.Inconclusive, Detail: "the rebalance before the measured close did not complete"}, ""
+		}
+		mu.Lock()
+		armed = true
+		mu.Unlock()
 	}
 	if !f.Close(30 * time.Second) {
 		return drv.Result{Verdict: drv.Inconclusive, Detail: "close did not return (owned by C13)", Foreign: []string{"close hang in gate run " + vs}}, ""
@@ -467,7 +497,7 @@ func c18RunGate(g c18Gate) (drv.Result, string) {
 	mu.Lock()
 	ov, fh, cr := overlapSeen, firstHeld, closeReqs
 	mu.Unlock()
-	desc := fmt.Sprintf("%s storage=%q bucket=%s: expiry_opcode=%v change_streams=%v close_requests=%d overlapping=%v", vs, g.Storage, g.Bucket, has("enable_expiry_opcode"), has("change_streams"), cr, ov)
+	desc := fmt.Sprintf("%s storage=%q bucket=%s reopened=%v: expiry_opcode=%v change_streams=%v close_requests=%d overlapping=%v", vs, g.Storage, g.Bucket, g.Reopen, has("enable_expiry_opcode"), has("change_streams"), cr, ov)
 	w := map[string]any{"version": vs, "storage": g.Storage, "controls": ctl, "close_requests": cr, "overlap": ov}
 	if has("enable_expiry_opcode") != wantExpiry {
 		return drv.Result{Verdict: drv.Violated, Clause: "gate-expiry", FindingKey: "C18/gate-expiry", Detail: desc, Witness: w}, desc
